@@ -87,6 +87,8 @@ class Machine:
             c = v.cause
             if isinstance(c, tuple) and c and c[0] == "i":
                 return V("intr", c[1], [c[2]])
+            if isinstance(c, int) and not isinstance(c, bool):
+                return V("intrn", c)
             return self.enc_cause(c)
         if isinstance(v, (ScriptError, ScriptAbort)):
             return V(v.args[0], v.args[1])
@@ -252,7 +254,8 @@ class Machine:
             return None
         if k == "interrupt":
             try:
-                self.procs[o["a"]].interrupt(("i", P, n))      # the Interruption registers itself (on_interruption)
+                # cause: (caller, op index) or, with b = 1, the bare op index -- a number that may be 0
+                self.procs[o["a"]].interrupt(n if o.get("b") == 1 else ("i", P, n))      # the Interruption registers itself
             except RuntimeError:
                 self.L("E", P, False, V("RuntimeError"))
             return None
@@ -591,7 +594,7 @@ class Chooser:
             if k == "spawn" and len(m.procs) - 1 < g["max_procs"] and len(m.events) + 1 < g["max_events"]:
                 return {"k": k, "a": 0, "b": 1 if rng.random() < g.get("spawn_noprobe", 0.3) else 0, "c": 0, "s": []}
             if k == "interrupt" and room and len(m.procs) > 1:
-                return {"k": k, "a": rng.randrange(1, len(m.procs)), "b": 0, "c": 0, "s": []}
+                return {"k": k, "a": rng.randrange(1, len(m.procs)), "b": 1 if rng.random() < 0.3 else 0, "c": 0, "s": []}
             if k in ("cond", "condnoprobe") and room:
                 u = self.users()
                 n = rng.choice([0, 1, 2, 2, 2, 3, 3])
